@@ -14,7 +14,7 @@ wt=/tmp/seedcheck/$dest; rm -rf "$wt"; mkdir -p /tmp/seedcheck
 git -C /repo worktree prune
 git -C /repo worktree add -q --detach "$wt" HEAD || exit 3
 demo_path=$(jq -r .demo_path "$src/meta.json"); demo_cmd=$(jq -r .demo_cmd "$src/meta.json")
-demo_file=$(ls "$src" | grep -v '^patch.diff$\|^meta.json$\|^result.json$\|^vsa.txt$' | head -1)
+demo_file=$(ls "$src" | grep '_test.go$\|\.go$' | head -1)
 res="$src/result.json"
 fail() { echo "SEEDCHECK $id: $1"; jq -n --arg s "$1" '{status:"rejected", reason:$s}' > "$res"; git -C /repo worktree remove --force "$wt"; exit 2; }
 case "$demo_path" in */) demo_path="$demo_path$demo_file";; esac
